@@ -213,6 +213,36 @@ def _sortkey(c):
     return json.dumps(c, sort_keys=True, default=repr)
 
 
+def _imgkey(c, prog=None):
+    """Key of the JSON image of a typed value, approximately (field names stand for aliases, no omission rule):
+    `unique` constrains the serialized items, and distinct values can have equal images ({} and an object without fields)."""
+    tag = c[0]
+    if tag in ("none", "undef"):
+        return ("N",)
+    if tag == "bool":
+        return ("B", c[1])
+    if tag in ("int", "float"):
+        return ("#", c[1] if c[1] == "nan" else float(c[1]))
+    if tag == "str":
+        return ("S", c[1])
+    if tag in ("list", "tuple"):
+        return ("L",) + tuple(_imgkey(x, prog) for x in c[1])
+    if tag in ("set", "frozenset"):
+        return ("L",) + tuple(sorted((_imgkey(x, prog) for x in c[1]), key=repr))
+    if tag == "dict":
+        return ("D",) + tuple(sorted(((_imgkey(k, prog), _imgkey(v, prog)) for k, v in c[1]), key=repr))
+    if tag == "tdict":
+        return ("D",) + tuple(sorted(((("S", k), _imgkey(v, prog)) for k, v in c[1].items() if v[0] != "undef"), key=repr))
+    if tag == "obj":
+        return ("D",) + tuple(sorted(((("S", k), _imgkey(v, prog)) for k, v in c[2].items() if v[0] != "undef"), key=repr))
+    if tag == "enum" and prog is not None:
+        e = next((e for e in prog["enums"] if e["name"] == c[1]), None)
+        if e is not None:
+            val = dict((m, x) for m, x in e["members"])[c[2]]
+            return _imgkey(canon_json(val), prog)
+    return ("?", _sortkey(c))
+
+
 def canon(v: Any) -> Any:
     import dataclasses
     import enum
@@ -253,7 +283,50 @@ def canon(v: Any) -> Any:
     for base, tag in ((bool, "bool"), (int, "int"), (float, "float"), (str, "str")):
         if isinstance(v, base):
             return ["sub", cls.__name__, [tag, base(v)]]
+    std = _std_canon(v)
+    if std is not None:
+        return std
     return ["py", cls.__name__, repr(v)]
+
+
+STD_IMAGES = {
+    "uuid": ["12345678-1234-5678-1234-567812345678", "00000000-0000-0000-0000-000000000000"],
+    "date": ["2020-01-02", "1999-12-31"],
+    "datetime": ["2020-01-02T03:04:05", "2020-01-02T03:04:05+00:00"],
+    "time": ["03:04:05", "23:59:00"],
+    "decimal": [1.5, 0.25, 2.0],
+    "bytes": ["YWJj", "", "YQ=="],
+    "path": ["a/b", "/tmp/x", "x"],
+    "ipv4": ["127.0.0.1", "10.0.0.255"],
+}
+
+
+def _std_canon(v):
+    import base64
+    import datetime
+    import decimal
+    import ipaddress
+    import pathlib
+    import uuid
+
+    cls = v.__class__
+    if cls is uuid.UUID:
+        return ["std", "uuid", str(v)]
+    if cls is datetime.datetime:
+        return ["std", "datetime", v.isoformat()]
+    if cls is datetime.date:
+        return ["std", "date", v.isoformat()]
+    if cls is datetime.time:
+        return ["std", "time", v.isoformat()]
+    if cls is decimal.Decimal:
+        return ["std", "decimal", float(v)]
+    if cls is bytes:
+        return ["std", "bytes", base64.b64encode(v).decode()]
+    if isinstance(v, pathlib.PurePath):
+        return ["std", "path", str(v)]
+    if cls is ipaddress.IPv4Address:
+        return ["std", "ipv4", str(v)]
+    return None
 
 
 def canon_json(d: Any) -> Any:
@@ -503,6 +576,16 @@ class Model:
             if msgs:
                 return None, Err(msgs)
             return canon_json(d), None
+        if k == "std":
+            # std_types.py conversions from str (float for Decimal): only the pool of known-valid images is modelled
+            want = float if t["t"] == "decimal" else str
+            if self.o.coerce or c:
+                raise Unspecified("std type under coercion / constraints")
+            if d.__class__ is want or (want is float and d.__class__ is int):
+                if d in STD_IMAGES[t["t"]] and d.__class__ is not bool:
+                    return ["std", t["t"], d], None
+                raise Unspecified("std image outside the modelled pool")
+            return None, Err([f"expected type {'number' if want is float else 'string'}, found {jname(d)}"])
         if k == "ann":
             return self.des(t["of"], d, merge_constraints(t["c"], c))
         if k == "newtype":
@@ -917,6 +1000,10 @@ def truth(c, prog=None) -> bool:
     if tag == "enum":
         return True  # plain Enum members are truthy; mixin enums are avoided with 'falsy' predicates
     if tag == "obj":
+        if prog is not None:
+            cd = next((c_ for c_ in prog["classes"] if c_ and c_["name"] == c[1]), None)
+            if cd is not None and cd["flavor"] == "namedtuple":
+                return bool(c[2])  # a NamedTuple is a tuple: one without fields is empty, hence falsy
         return True
     raise Unspecified("truthiness")
 
@@ -956,6 +1043,8 @@ def class_matches(prog: dict, t: dict, v) -> bool:
     k, tag = t0["k"], v[0]
     if k == "any":
         return True
+    if k == "std":
+        return tag == "std" and v[1] == t0["t"]
     if k == "none":
         return tag == "none"
     if k == "bool":
@@ -1011,6 +1100,10 @@ def _ser(self, t: dict, v, top=False):
         return self.ser(t["of"], v)
     if k == "newtype":
         return self.ser(prog["newtypes"][t["i"]]["of"], v)
+    if k == "std":
+        if tag != "std" or v[1] != t["t"]:
+            raise Mismatch
+        return v[2]
     if k == "none":
         if tag != "none":
             raise Mismatch
@@ -1221,6 +1314,18 @@ def plain(x):
     return x
 
 
+_FIRST_MATCH = [False]
+
+
+def conforms_first_match(prog: dict, t: dict, v) -> bool:
+    """conforms(), every union being read as 'the first alternative whose class matches the value'."""
+    _FIRST_MATCH[0] = True
+    try:
+        return conforms(prog, t, v)
+    finally:
+        _FIRST_MATCH[0] = False
+
+
 def conforms(prog: dict, t: dict, v, c: Optional[dict] = None, depth: int = 0) -> bool:
     """Is the typed value v (canon) a value of t, constraints included?  (Used to keep generated
     values inside the domain "value v of T" of the serialization properties.)"""
@@ -1240,7 +1345,23 @@ def conforms(prog: dict, t: dict, v, c: Optional[dict] = None, depth: int = 0) -
             return False
     if k == "any":
         return tag != "undef"
+    if k == "std":
+        return tag == "std" and v[1] == t["t"]
     if k in ("opt", "union"):
+        if _FIRST_MATCH[0]:
+            # operational reading: union serialization serves the FIRST alternative whose class matches; the value
+            # is well-typed for the call only if it conforms to that one (a dict that is not a valid TypedDict C
+            # in Union[C, Any] is served by C without check_type and by Any with it)
+            for a in union_alts(t):
+                if a["k"] in ("unsup",):
+                    continue
+                try:
+                    hit = class_matches(prog, a, v)
+                except Unspecified:
+                    return False
+                if hit:
+                    return conforms(prog, a, v, c, depth + 1)
+            return False
         return any(conforms(prog, a, v, c, depth + 1) for a in union_alts(t) if a["k"] not in ("unsup",))
     if k == "undefined":
         return tag == "undef"
@@ -1262,13 +1383,13 @@ def conforms(prog: dict, t: dict, v, c: Optional[dict] = None, depth: int = 0) -
                 return False
             if c.get("max_items") is not None and len(v[1]) > c["max_items"]:
                 return False
-            if c.get("unique") and len({_sortkey(x) for x in v[1]}) != len(v[1]):
+            if c.get("unique") and len({_imgkey(x, prog) for x in v[1]}) != len(v[1]):
                 return False
         return all(conforms(prog, t["of"], x, None, depth + 1) for x in v[1])
     if k == "tuple":
         if tag != "tuple":
             return False
-        if c and c.get("unique") and len({_sortkey(x) for x in v[1]}) != len(v[1]):
+        if c and c.get("unique") and len({_imgkey(x, prog) for x in v[1]}) != len(v[1]):
             return False
         return tag == "tuple" and len(v[1]) == len(t["items"]) and all(conforms(prog, it, x, None, depth + 1) for it, x in zip(t["items"], v[1]))
     if k == "map":
